@@ -440,6 +440,8 @@ func drawPlan(t *rapid.T, prop, family string) *Plan {
 		p = g.planC08()
 	case "C10":
 		p = g.planC10()
+	case "C03", "C04":
+		p = g.planFlows(prop)
 	default:
 		p = g.planC01()
 		p.Property = prop
